@@ -261,16 +261,21 @@ func digestChain(c *core.Ctx) (bool, string) {
 		c.Fail("C18.R1", key, pos, msg)
 	}
 	// (1) descriptorFromResponse: a header digest is accepted only under IsValidDigest; with requireDigest an empty digest is an error
+	// the header may be read, and validated, in a private helper whose error dfr forwards
 	var hdrDigest ssa.Value
-	for _, ci := range facts.CallsIn(dfr) {
-		if facts.CalleeName(ci.Common()) == "(net/http.Header).Get" {
-			if s, ok := facts.ConstString(ci.Common().Args[1]); ok && s == "Docker-Content-Digest" {
-				hdrDigest = ci.Value()
+	hdrFn := dfr
+	for _, f := range withHelpers(dfr) {
+		for _, ci := range facts.CallsIn(f) {
+			if facts.CalleeName(ci.Common()) == "(net/http.Header).Get" {
+				if s, ok := facts.ConstString(ci.Common().Args[1]); ok && s == "Docker-Content-Digest" {
+					hdrDigest = ci.Value()
+					hdrFn = outermost(f)
+				}
 			}
 		}
 	}
 	validated, requireChecked := false, false
-	for _, r := range returnsOf(dfr) {
+	for _, r := range returnsOf(hdrFn) {
 		if facts.RetErrIsNil(r) {
 			continue
 		}
@@ -280,6 +285,32 @@ func digestChain(c *core.Ctx) (bool, string) {
 					validated = true
 				}
 			}
+		}
+	}
+	if validated && hdrFn != dfr {
+		// the helper's refusal must be dfr's refusal
+		forwarded := false
+		for _, r := range returnsOf(dfr) {
+			if len(r.Results) == 0 {
+				continue
+			}
+			if ex, ok := facts.RetVal(r, len(r.Results)-1).(*ssa.Extract); ok {
+				if call, ok := ex.Tuple.(*ssa.Call); ok && call.Call.StaticCallee() == hdrFn {
+					for _, cd := range facts.CondsAt(r.Block()) {
+						if x, isNil, ok := facts.NilCheck(cd); ok && !isNil && facts.Resolve(x) == ssa.Value(ex) {
+							forwarded = true
+						}
+					}
+				}
+			}
+		}
+		validated = forwarded
+	}
+	for _, r := range returnsOf(dfr) {
+		if facts.RetErrIsNil(r) {
+			continue
+		}
+		for _, cd := range facts.CondsAt(r.Block()) {
 			// require&requireDigest != 0, or == requireDigest
 			if x, op, y, ok := facts.Cmp(cd); ok && (op == token.NEQ || op == token.EQL) {
 				if bo, isBo := x.(*ssa.BinOp); isBo && bo.Op == token.AND {
